@@ -37,6 +37,7 @@ class Tags:
         self.g = self.du.cfg
         self.env = env or {}              # parameter -> time/step form
         self.state_env = state_env or {}  # parameter -> state tag
+        self.field_env: Dict[str, Poly] = {}   # parameter -> field tag
 
     # ---------------------------------------------------------- plumbing
     def _crosses_back_edge(self, dnode: int, use: int) -> bool:
@@ -103,6 +104,33 @@ class Tags:
             return None
         return (f - START).div(DT)
 
+    # ---------------------------------------------------------- field tags
+    def field_tag(self, e: ast.AST, nid: int) -> Optional[Poly]:
+        """Step to which a field VALUE belongs (plain names only): a value defined in
+        the current iteration belongs to the current step, a value that reaches the use
+        across the loop back edge to the previous one; `self._field` goes with `self._step`."""
+        if dotted(e) == "self._field":
+            return STEP
+        if not isinstance(e, ast.Name):
+            return None
+        ds = self._name_defs(e.id, nid)
+        real = [d for d in ds if d.sel != (("param",),)]
+        if not real:
+            return self.field_env.get(e.id)
+        tags = set()
+        for d in real:
+            if d.value is not None and isinstance(d.value, (ast.Name, ast.Attribute)) \
+                    and not d.sel and d.node != nid:
+                t = self.field_tag(d.value, d.node)
+                if t is None:
+                    t = STEP
+            else:
+                t = STEP
+            if self._crosses_back_edge(d.node, nid) or d.node == nid:
+                t = self._shift(t)
+            tags.add(t)
+        return tags.pop() if len(tags) == 1 else None
+
     # ---------------------------------------------------------- state tags
     def state_tag(self, e: ast.AST, nid: int, depth: int = 0) -> Optional[Poly]:
         if depth > 10:
@@ -158,6 +186,18 @@ def _field_eom_calls(u: Unit) -> List[ast.Call]:
             and (dotted(c.func) or "").split(".")[-1] == "field_eom" and len(c.args) >= 2]
 
 
+def _judge_field(chk: Check, owner: Unit, label: str, c: ast.Call, tt: Optional[Poly],
+                 ft: Optional[Poly]) -> None:
+    if len(c.args) < 3 or not isinstance(c.args[2], (ast.Name, ast.Attribute)) or ft is None \
+            or tt is None:
+        return
+    ok = tt == ft
+    chk.add("F1", owner, f"{label}: field argument {norm(c.args[2])} of field_eom({norm(c.args[0])}, ..)",
+            ok, f"time at step {tt}, field of step {ft}" if ok else
+            f"the field equation of motion is evaluated at the time of step [{tt}] with the field "
+            f"value of step [{ft}]", c)
+
+
 def _judge(chk: Check, owner: Unit, label: str, c: ast.Call, tt: Optional[Poly],
            st: Optional[Poly]) -> None:
     if tt is None or st is None:
@@ -211,11 +251,17 @@ def f1(prog: Program, chk: Check) -> None:
             if s is not None:
                 senv[p] = s
         tm = Tags(prog, mu, env, senv)
+        for p, a_ in zip(params, call.args):
+            ft = tb.field_tag(a_, nid)
+            if ft is not None and "field" in p:
+                tm.field_env[p] = ft
         chk.saw(mu, tm.g)
         for c in _field_eom_calls(mu):
             n2 = tm.du.node_of(c)
             _judge(chk, mu, f"MeanFieldTempo.{meth}", c, tm.time_tag(c.args[0], n2),
                    tm.state_tag(c.args[1], n2))
+            _judge_field(chk, mu, f"MeanFieldTempo.{meth}", c, tm.time_tag(c.args[0], n2),
+                         tm.field_tag(c.args[2], n2) if len(c.args) > 2 else None)
     # ---- compute_dynamics_with_field
     u = prog.unit("system_dynamics:compute_dynamics_with_field")
     tu = Tags(prog, u)
@@ -224,6 +270,8 @@ def f1(prog: Program, chk: Check) -> None:
         nid = tu.du.node_of(c)
         _judge(chk, u, "compute_dynamics_with_field", c, tu.time_tag(c.args[0], nid),
                tu.state_tag(c.args[1], nid))
+        _judge_field(chk, u, "compute_dynamics_with_field", c, tu.time_tag(c.args[0], nid),
+                     tu.field_tag(c.args[2], nid) if len(c.args) > 2 else None)
     closures = [v for v in prog.nested_units(u) if _field_eom_calls(v)]
     if not closures:
         raise AnalysisError("F1: the compute_field closure of compute_dynamics_with_field vanished")
@@ -242,11 +290,17 @@ def f1(prog: Program, chk: Check) -> None:
                 if s is not None:
                     senv[p] = s
             tv = Tags(prog, v, env, senv)
+            for p, a_ in zip(v.params, call.args):
+                ft = tu.field_tag(a_, nid)
+                if ft is not None and "field" in p:
+                    tv.field_env[p] = ft
             where = "in the loop" if k == 0 else "for the final state"
             for c in _field_eom_calls(v):
                 n2 = tv.du.node_of(c)
-                _judge(chk, u, f"{v.name}({', '.join(norm(a) for a in call.args[:3])}..) {where}",
-                       c, tv.time_tag(c.args[0], n2), tv.state_tag(c.args[1], n2))
+                lab = f"{v.name}({', '.join(norm(a) for a in call.args[:3])}..) {where}"
+                _judge(chk, u, lab, c, tv.time_tag(c.args[0], n2), tv.state_tag(c.args[1], n2))
+                _judge_field(chk, u, lab, c, tv.time_tag(c.args[0], n2),
+                             tv.field_tag(c.args[2], n2) if len(c.args) > 2 else None)
 
 
 # --------------------------------------------------------------------- F2
